@@ -63,6 +63,68 @@ def factories(F, classes=None):
     return sorted(out, key=lambda f: f['id'])
 
 
+class Canon:
+    """Renaming-proof rendering: sub-objects owned by the result are named by their class (numbered by
+    first appearance), members of the factory object by their declared type."""
+
+    def __init__(self, F, this_cls):
+        self.F = F
+        self.this_cls = this_cls
+        self.seen = {}
+        self.per_class = {}
+
+    def own(self, oid, cls):
+        if oid not in self.seen:
+            k = self.per_class.get(cls, 0) + 1
+            self.per_class[cls] = k
+            self.seen[oid] = f'own:{short(cls)}#{k}'
+        return self.seen[oid]
+
+    def this_field(self, name):
+        if not self.this_cls:
+            return '$this.' + name
+        c, fl = self.F.field(self.this_cls, name)
+        if fl is None:
+            return '$this.' + name
+        same = []
+        for cc in [self.this_cls] + self.F.ancestors(self.this_cls):
+            r = self.F.rec.get(cc)
+            if r:
+                same.extend(x['name'] for x in r['fields'] if x['t'] == fl['t'])
+        ty = short(fl['t'])
+        if len(same) > 1:
+            return f'$this:{ty}/{name}'
+        return f'$this:{ty}'
+
+
+def canon_names(F, st, root, this_cls):
+    """names map for canonical rendering of a contract rooted at `root`."""
+    c = Canon(F, this_cls)
+    names = {'__canon__': c}
+    if root is not None and root[0] == 'obj':
+        names[root[1]] = 'R'
+        # name owned sub-objects in a deterministic order (sorted field names, breadth first)
+        todo = [root[1]]
+        visited = {root[1]}
+        while todo:
+            oid = todo.pop(0)
+            o = st.heap.get(oid)
+            if o is None:
+                continue
+            for fn, v in sorted(o.fields.items()):
+                tgt = v[1] if isinstance(v, tuple) and v and v[0] == 'addr' else v
+                if isinstance(tgt, tuple) and tgt and tgt[0] == 'obj' and tgt[1] in st.heap and tgt[1] not in visited:
+                    oo = st.heap[tgt[1]]
+                    visited.add(tgt[1])
+                    if oo.cls.startswith('ipr::Optional<') or oo.cls.startswith('ipr::util::ref<'):
+                        todo.append(tgt[1])
+                        continue
+                    if isinstance(v, tuple) and v[0] == 'obj':
+                        names[tgt[1]] = c.own(tgt[1], oo.cls)      # by-value member
+                        todo.append(tgt[1])
+    return names
+
+
 def name_paths(st, root, rootname='R', maxdepth=5):
     """Map oid -> access path from the root object, for readable & stable rendering."""
     names = {}
@@ -108,6 +170,10 @@ def render(t, st, names, _d=0):
             return f'{w}(*{R(p)})'
         if t[1] in names:
             return names[t[1]]
+        canon = names.get('__canon__')
+        if canon is not None and o.origin and o.origin[0] in ('emplace', 'tree', 'new'):
+            # a node object allocated during the evaluation but not reachable from the result by fields
+            return canon.own(t[1], o.cls)
         cn = o.cls
         if o.origin and o.origin[0] == 'copy':
             return R(o.origin[1])
@@ -118,6 +184,9 @@ def render(t, st, names, _d=0):
     if k == 'param':
         return f'P{t[1]}'
     if k == 'fld':
+        canon = names.get('__canon__')
+        if canon is not None and t[1] == ('sym', 'this'):
+            return canon.this_field(t[2])
         return f'{R(t[1])}.{t[2]}'
     if k == 'addr':
         return '&' + R(t[1])
@@ -165,6 +234,38 @@ def fn_qname(fid):
             if depth == 0:
                 return s[:i]
     return s
+
+
+def fn_simple(fid):
+    """Unqualified name of a function id, template arguments stripped (operator names kept whole)."""
+    q = fn_qname(fid)
+    # cut at the last top-level '::'
+    depth = 0
+    cut = 0
+    i = 0
+    while i < len(q):
+        ch = q[i]
+        if ch in '<(':
+            # `operator<`, `operator<=`, `operator()` are names, not brackets
+            if q[:i].endswith('operator') or q[:i].endswith('operator<') or q[:i].endswith('operator('):
+                i += 1
+                continue
+            depth += 1
+        elif ch in '>)':
+            if q[:i].endswith('operator') or q[:i].endswith('operator-') or q[:i].endswith('operator>') or q[:i].endswith('operator('):
+                i += 1
+                continue
+            depth -= 1
+        elif ch == ':' and depth == 0 and q[i:i + 2] == '::':
+            cut = i + 2
+            i += 1
+        i += 1
+    name = q[cut:]
+    if not name.startswith('operator') and '<' in name:
+        name = name[:name.index('<')]
+    elif name.startswith('operator') and name.endswith('>') and '<' in name[8:] and not name.startswith(('operator<', 'operator>', 'operator->')):
+        name = name[:name.index('<', 8)]
+    return name
 
 
 def short(q):
@@ -254,20 +355,26 @@ def observe(S, F, st, obj, names, accessor_filter=None):
     return res
 
 
-def factory_contract(F, f, S=None, accessor_filter=None):
+def factory_contract(F, f, S=None, accessor_filter=None, canonical=False, this=None, args=None, state=None):
     """Contract of one factory: list of {when, result, accessors, effects} (one per path)."""
     S = S or Sym(F, opaque=default_opaque(F), max_depth=48)
-    outs = S.run(f['id'])
+    outs = S.run(f['id'], this=this, args=args, state=state)
     paths = []
     for st, kind, v in outs:
         if kind == 'throw':
-            paths.append({'when': render_conds(st.conds, st, {}), 'throws': short(v)})
+            nm = canon_names(F, st, None, f.get('parent')) if canonical else {}
+            paths.append({'when': render_conds(st.conds, st, nm), 'throws': short(v)})
             continue
         root = v
         if root is not None and root[0] == 'addr':
             root = root[1]
-        names = name_paths(st, root) if root is not None else {}
+        if canonical:
+            names = canon_names(F, st, root, f.get('parent'))
+        else:
+            names = name_paths(st, root) if root is not None else {}
         entry = {'when': render_conds(st.conds, st, names)}
+        if canonical:
+            entry['stored_params'] = sorted(reachable_params(st, root))
         if root is not None and root[0] == 'obj' and root[1] in st.heap:
             o = st.heap[root[1]]
             entry['class'] = o.cls
@@ -279,12 +386,40 @@ def factory_contract(F, f, S=None, accessor_filter=None):
     return paths
 
 
+def reachable_params(st, root):
+    """Indices of factory parameters stored anywhere in the object graph reachable from the result."""
+    seen, acc = set(), set()
+
+    def rec(t):
+        if not isinstance(t, tuple) or not t:
+            return
+        if t[0] == 'param' and isinstance(t[1], int):
+            acc.add(t[1])
+            return
+        if t[0] == 'obj':
+            if t[1] in seen or t[1] not in st.heap:
+                return
+            seen.add(t[1])
+            o = st.heap[t[1]]
+            for v in o.fields.values():
+                rec(v)
+            if o.origin and o.origin[0] == 'copy':
+                rec(o.origin[1])
+            return
+        for x in t:
+            rec(x)
+    rec(root)
+    for c, _v in st.conds:
+        rec(c)
+    return acc
+
+
 def origin_str(o, st, names):
     og = o.origin
     if not og:
         return 'unknown'
     if og[0] == 'emplace':
-        return f'fresh:{og[1]}:{render(og[2], st, names)}'
+        return f'fresh:{render(og[2], st, names)}'
     if og[0] == 'tree':
         return f'unified:{render(og[1], st, names)}:key={render(og[2], st, names)}'
     if og[0] == 'ctor':
